@@ -11,10 +11,16 @@ LEVEL_TEXT = ("The contract ParallelFor (exactly-once per index, nothing for n <
               "thread counts, on the Internal backend also under seeded schedule perturbation through guarded hook points of the scheduler and in an "
               "oversubscribed stress plan (16 tasking threads on 4 CPUs, thousands of rounds; the first rounds and every round whose read-back is not "
               "'each cell once' are recorded); every recorded execution (call / per-index begin / end / return events stamped by one atomic counter, "
-              "cells read back by the caller) is validated by TLC against the contract.  The Internal backend's scheduler and its lock-free pipe have mechanism models "
+              "cells read back by the caller) is validated by TLC against the contract.  Counts at the 2^31 / 2^32 boundaries (2^31-1 .. 2^32+5; both parallel_foreach "
+              "overloads, parallel_for with 32- and 64-bit index types, parallel_in_blocks_of) run as macro scenarios: one-byte counters in a guarded array of N "
+              "cells, the measured summary (once / never / more than once / outside / min / max / oversize and empty blocks) is judged by TLC against "
+              "Summary(N) of ParallelForHuge.tla.  The Internal backend's scheduler and its lock-free pipe have mechanism models "
               "(spec/tasking/EnkiTS.tla, Pipe.tla) checked by TLC under all interleavings for small bounds, the pipe additionally bound to the real "
               "LockLessMultiReadPipe by trace validation.")
-LEVEL_NOTE = ("task counts above 2^31 are not exercised (the Internal backend narrows to int); schedules of TBB / OpenMP are whatever the runtime "
+LEVEL_NOTE = ("task counts of 2^31 and more are exercised as macro scenarios only (summary of the whole loop: ParallelForHuge.tla, linked to the per-index "
+              "contract by ParallelForHugeMC), on TBB in both tiers, on Debug / OpenMP (block loops only: schedule(dynamic) needs minutes per 2^31 "
+              "bodies) / Internal (only loops whose underlying parallel_for has fewer than 2^31 tasks: the Internal backend narrows the count to int) "
+              "in the thorough tier; schedules of TBB / OpenMP are whatever the runtime "
               "produces (perturbed by skewed body cost, nesting and thread counts), not enumerated; trusted: TLC, the recorder's stamps "
               "(one atomic counter), lossless merging of back-to-back invocations of one thread into runs")
 TECHNIQUE = "TLA+ contract + TLC model checking; TLC-generated scenarios run on 4 backends; TLC trace validation of recorded executions; PlusCal mechanism models of the scheduler and pipe"
@@ -119,7 +125,7 @@ def run(chk, replay=None):
     quick = chk.tier == "quick"
     chk.assumptions += [
         "calls are issued from the thread that initialised the tasking system (or from inside a loop body); loops started concurrently from several external threads are not part of the stated quantifier",
-        "TLC integers are 32-bit: task counts stay below 2^31",
+        "TLC integers are 32-bit: per-index recorded executions stay below 2^31 tasks; counts around 2^31 / 2^32 are judged through the loop's summary (limbs of 16 bits)",
     ]
     if replay:
         return do_replay(chk, replay)
@@ -145,7 +151,7 @@ def run(chk, replay=None):
         plans += [("Internal", 3, 0), ("Internal", 8, 0), ("Internal", 1, 0), ("TBB", 2, 0), ("TBB", 8, 0), ("OpenMP", 2, 0)]
         plans += [("Internal", t, chk.seed * 100 + k) for k in range(1, 4) for t in (2, 4)]
     if os.environ.get("VERIF_C01_PLANS"):      # development aid: VERIF_C01_PLANS="Internal:4,TBB:2"
-        plans = [(x.split(":")[0], int(x.split(":")[1]), int((x.split(":") + ["0"])[2])) for x in os.environ["VERIF_C01_PLANS"].split(",")]
+        plans = [(x.split(":")[0], int(x.split(":")[1]), int((x.split(":") + ["0"])[2])) for x in os.environ["VERIF_C01_PLANS"].split(",") if ":" in x]
     total_events = 0
     cut_recs = []
     cut_short = {}
@@ -231,10 +237,158 @@ def run(chk, replay=None):
                           % (json.dumps(sc_, sort_keys=True), rj["line"], json.dumps(evs[rj["line"]])[:400]),
                           {"kind": "par_for", "backend": "Internal", "threads": 16, "scenario": sc_,
                            "events_tail": evs[max(0, rj["line"] - 20):rj["line"] + 1], "rejected_at": rj["line"]})
+    # 2c. macro scenarios: counts around 2^31 / 2^32 (ParallelForHuge.tla), summaries judged by TLC
+    if not os.environ.get("VERIF_C01_PLANS") or "huge" in os.environ.get("VERIF_C01_PLANS", ""):
+        run_huge(chk, quick)
     # 3. the lock-free pipe of the Internal backend, bound to the real template
     c01_mech.run_pipe_conformance(chk, quick)
     chk.cov["rule"] = ("one execution per (scenario, backend, thread count); scenarios are all elements of the set Scenarios of ParallelForGen.tla "
                        "(thinned in the quick tier for n >= 1000); distinct = distinct scenario records per plan; non-trivial = task count > 0")
+
+
+HUGE_FIELDS = ["once", "never", "multi", "outside", "min", "max", "oversize", "empty"]
+HUGE_API = {"for": "parallel_for", "foreach": "parallel_foreach[container]", "foreach_it": "parallel_foreach[iterators]",
+            "blocks": "parallel_in_blocks_of", "none": "control(no-loop)"}
+
+
+def _lim(v):
+    """limbs <<hi, lo>> of the specification -> Python integer (for logs / evidence only)"""
+    return v[0] * 65536 + v[1]
+
+
+def huge_execute(chk, backend, threads, mine, tag, timeout):
+    """Run macro scenarios (one driver process, largest first so that the array is mapped once), check that every one of
+    them was really allocated / run / scanned (InfraError otherwise), let TLC (ParallelForHugeValidate) judge the summaries.
+    Returns (records, rejected) with rejected = [(index, [bad fields])]."""
+    import re
+    exe = build.build("drv_par_for", backend=backend)
+    send = [dict(s) for s in mine]
+    res = run_driver(exe, send, threads, tag, timeout=timeout)
+    recs = []
+    for i, s in enumerate(mine):
+        r = res.get(i)
+        h = (r or {}).get("huge")
+        what = "%s %s<%s> N=%d B=%d on %s" % (s["api"], HUGE_API[s["api"]], s["type"], _lim(s["N"]), s["B"], backend)
+        ab = next((e for e in (r or {}).get("events", []) if e.get("ev") == "Abort"), None)
+        if not h and ab and not (r or {}).get("skipped"):
+            # the loop did not return within the time-out (or ended the process): an execution the contract does not allow
+            # ("... are visible to the caller when the call returns"), reported like the hangs / crashes of the recorded plans
+            kind = "hang" if "hang" in ab.get("why", "") else "crash"
+            sig = "%s/%s(%s,%s)/%s" % (backend, HUGE_API[s["api"]].split("[")[0], s["cls"], "B=%d" % s["B"] if s["api"] == "blocks" else s["type"], kind)
+            chk.violation(sig, "%s backend, %d threads: %s: %s %s" % (backend, threads, what, ab.get("why", ""), ab.get("report", "")[:300]),
+                          {"kind": "par_for_huge", "backend": backend, "threads": threads, "scenario": s, "observed": ab})
+            continue
+        if not h and (r or {}).get("skipped"):
+            continue      # not run: the plan was cut short after repeated hangs (each of them reported above)
+        if not h:
+            raise InfraError("vacuity guard: macro scenario requested but the driver returned no summary (%s): %s" % (what, json.dumps(r)[:400]))
+        if not h.get("allocated") or not h.get("ran"):
+            raise InfraError("vacuity guard: macro scenario was not allocated / run by the driver (%s): %s" % (what, json.dumps(h)[:400]))
+        if _lim(h["bytes"]) != _lim(s["N"]) + 2 * s["G"] or _lim(h["cells_scanned"]) != _lim(s["N"]):
+            raise InfraError("vacuity guard: the driver did not allocate / scan the %d cells of the scenario (%s): %s" % (_lim(s["N"]), what, json.dumps(h)[:400]))
+        recs.append({"sc": s, "obs": {f: h[f] for f in HUGE_FIELDS}, "loop_ms": h.get("loop_ms"), "scan_ms": h.get("scan_ms")})
+    d = os.path.join(WORK, "run", tag)
+    os.makedirs(d, exist_ok=True)
+    path = os.path.join(d, "huge-%d.ndjson" % os.getpid())
+    with open(path, "w") as f:
+        for r in recs:
+            f.write(json.dumps({"sc": r["sc"], "obs": r["obs"]}) + "\n")
+    r = tla.run_tlc(os.path.join(SPEC, "ParallelForHugeValidate.tla"), os.path.join(SPEC, "ParallelForHugeValidate.cfg"), workers=1, timeout=600,
+                    env={"RECS": path}, tag=tag + "-validate")
+    os.remove(path)
+    m = re.search(r'"HUGE-JUDGED", (\d+), "FOREIGN", (\d+)', r.out)
+    if r.error or not r.ok or not m or int(m.group(1)) != len(recs) or int(m.group(2)) != 0:
+        raise InfraError("ParallelForHugeValidate did not judge the %d records (or met scenarios outside the specification's space): %s"
+                         % (len(recs), (r.error or r.out)[-1500:]))
+    rej = []
+    for i, bad in re.findall(r'"HUGE-REJECTED", (\d+), (\{[^}]*\})', r.out):
+        rej.append((int(i) - 1, [f for f in HUGE_FIELDS if '"%s"' % f in bad]))
+    chk.cov["states"] += 1
+    return recs, rej
+
+
+def huge_report(chk, backend, threads, recs, rej):
+    for i, bad in rej:
+        s, obs = recs[i]["sc"], recs[i]["obs"]
+        if s["api"] == "none":
+            raise InfraError("the control scenario (no loop called) was not measured as 'nothing visited': %s" % json.dumps(obs))
+        sig = "%s/%s(%s,%s)/%s" % (backend, HUGE_API[s["api"]].split("[")[0], s["cls"], "B=%d" % s["B"] if s["api"] == "blocks" else s["type"], bad[0])
+        what = ("%s backend, %d threads: %s<%s>%s over N = %d indices: measured summary %s, the contract fixes %s (fields %s differ)"
+                % (backend, threads, HUGE_API[s["api"]], s["type"], " BLOCK=%d" % s["B"] if s["api"] == "blocks" else "", _lim(s["N"]),
+                   json.dumps({f: (_lim(obs[f]) if obs[f][0] >= 0 else None) for f in HUGE_FIELDS}),
+                   json.dumps({f: (_lim(s["exp"][f]) if s["exp"][f][0] >= 0 else None) for f in HUGE_FIELDS}), bad))
+        chk.violation(sig, what, {"kind": "par_for_huge", "backend": backend, "threads": threads, "scenario": s, "observed": obs})
+
+
+def run_huge(chk, quick):
+    """Counts around 2^31 / 2^32: macro scenarios of ParallelForHuge.tla."""
+    from concurrent.futures import ThreadPoolExecutor
+    pool = ThreadPoolExecutor(max_workers=2)       # the two model-checking runs go on while the loops run
+    f_mc = pool.submit(tla.run_tlc, os.path.join(SPEC, "ParallelForHugeMC.tla"), os.path.join(SPEC, "ParallelForHugeMC.cfg"), workers=4, timeout=900, deadlock=True,
+                       tag="ParallelForHugeMC")
+    f_neg = pool.submit(tla.run_tlc, os.path.join(SPEC, "ParallelForHugeMC.tla"), os.path.join(SPEC, "ParallelForHugeMC_neg.cfg"), workers=2, timeout=900, deadlock=True,
+                        tag="ParallelForHugeMC_neg")
+    scen = funcheck.gen_cases(chk, SPEC, "ParallelForHugeGen", "ParallelForHugeGen.cfg", "c01-huge-gen", what="macro scenarios (counts around 2^31 / 2^32)")
+    scen.sort(key=lambda s: (-_lim(s["N"]), json.dumps(s, sort_keys=True)))
+    two31 = 1 << 31
+    # (backend, threads, plans of the specification taken, time-out): all 16 cores - the loops are memory-bound
+    if quick:
+        plans = [("TBB", 16, ("quick",), 300)]
+    else:
+        plans = [("TBB", 16, ("quick", "wide", "tbb"), 600), ("Debug", 1, ("quick", "wide"), 900), ("OpenMP", 16, ("quick", "wide"), 900),
+                 ("Internal", 16, ("quick", "wide"), 600)]
+    ev = {"scenarios_run": 0, "by_backend": {}, "indices_summarised": 0, "largest_count": 0, "not_run": []}
+    for backend, threads, take, timeout in plans:
+        mine = [s for s in scen if s["plan"] in take]
+        ntasks = lambda s: _lim(s["N"]) if s["api"] != "blocks" else (_lim(s["N"]) + s["B"] - 1) // s["B"]   # size of the underlying parallel_for
+        if backend == "Internal" and not os.environ.get("VERIF_C01_HUGE_INTERNAL"):
+            # the Internal backend takes the count as int (parallel_for_internal(int nTasks), TaskSys.h): a parallel_for over >= 2^31
+            # tasks is outside what this check exercises there (LEVEL_NOTE); set VERIF_C01_HUGE_INTERNAL=1 to run them all the same
+            keep = [s for s in mine if ntasks(s) < two31]
+            ev["not_run"].append("Internal: %d of %d macro scenarios not run (underlying parallel_for over >= 2^31 tasks; the backend's entry point "
+                                 "takes the count as int: LEVEL_NOTE)" % (len(mine) - len(keep), len(mine)))
+            mine = keep
+        if backend == "OpenMP":
+            # schedule(dynamic) hands out single indices: measured 110 s per loop of 2^31 trivial bodies on 16 threads
+            keep = [s for s in mine if ntasks(s) < (1 << 24)]
+            ev["not_run"].append("OpenMP: %d of %d macro scenarios not run (schedule(dynamic), chunk 1: measured 110 s per 2^31 trivial bodies); "
+                                 "run: block loops with BLOCK = 65536 over >= 2^31 indices, small counts" % (len(mine) - len(keep), len(mine)))
+            mine = keep
+        if not mine:
+            continue
+        t0 = time.time()
+        recs, rej = huge_execute(chk, backend, threads, mine, "c01-huge-%s" % backend, timeout)
+        chk.count_actions([[{"a": "huge:%s:%s:%s" % (backend, s["api"], s["cls"])} for s in mine]])
+        chk.cov["evaluations"] += len(mine)
+        chk.cov["distinct_nontrivial"] += sum(1 for s in mine if _lim(s["N"]) > 0)
+        ev["scenarios_run"] += len(mine)
+        ev["by_backend"][backend] = {"scenarios": len(mine), "with_N>=2^31-1": sum(1 for s in mine if _lim(s["N"]) >= two31 - 1),
+                                     "with_N>=2^32": sum(1 for s in mine if _lim(s["N"]) >= 1 << 32), "rejected": len(rej),
+                                     "loop_ms": sum(r_["loop_ms"] or 0 for r_ in recs), "scan_ms": sum(r_["scan_ms"] or 0 for r_ in recs)}
+        ev["indices_summarised"] += sum(_lim(s["N"]) for s in mine)
+        ev["largest_count"] = max([ev["largest_count"]] + [_lim(s["N"]) for s in mine])
+        chk.log("%s T=%d: %d macro scenarios (%d with N >= 2^31-1, largest N = %d) run in %.1fs, %d rejected by ParallelForHugeValidate"
+                % (backend, threads, len(mine), ev["by_backend"][backend]["with_N>=2^31-1"], max(_lim(s["N"]) for s in mine), time.time() - t0, len(rej)))
+        if backend == "TBB":
+            big = [r_ for r_ in recs if r_["sc"]["api"] == "foreach" and r_["sc"]["cls"] == "n>=2^32"]
+            if big:
+                ev["sample"] = {"backend": backend, "scenario": big[0]["sc"], "observed": big[0]["obs"]}
+        huge_report(chk, backend, threads, recs, rej)
+    chk.cov["huge_counts"] = ev
+    r = f_mc.result()
+    chk.require_model_ok("ParallelForHugeMC", r, "macro form of the contract: at Return the summary computed from the per-index contract's invocations is Summary(n)")
+    r = f_neg.result()
+    pool.shutdown()
+    if r.error:
+        raise InfraError("TLC error in ParallelForHugeMC_neg: %s" % r.error[:1500])
+    if r.ok:
+        raise InfraError("non-vacuity: no behaviour of ParallelForHugeMC returns from a call with n = MaxN (MacroAgrees would hold vacuously)")
+    chk.add_model("ParallelForHugeMC/ParallelForHugeMC_neg.cfg", r, "non-vacuity of MacroAgrees: a call with n = MaxN does return -> refuted as required (%s)" % r.violated)
+    # vacuity guard: both boundaries through both parallel_foreach overloads, a 64-bit parallel_for, blocks, the signed maximum, the control
+    chk.require_actions((["huge:TBB:foreach_it:2^31<=n<2^32", "huge:TBB:foreach:n>=2^32", "huge:TBB:for:2^31<=n<2^32", "huge:TBB:for:n>=2^32", "huge:TBB:blocks:n>=2^32"] if quick else
+                         ["huge:TBB:%s:%s" % (a, c) for a in ("foreach", "foreach_it", "for", "blocks") for c in ("2^31<=n<2^32", "n>=2^32")])
+                        + ["huge:TBB:for:n=2^31-1", "huge:TBB:none:2^31<=n<2^32", "huge:TBB:for:small"]
+                        + ([] if quick else ["huge:Debug:foreach_it:n>=2^32", "huge:Debug:for:n>=2^32", "huge:OpenMP:blocks:n>=2^32", "huge:Internal:for:n=2^31-1"]))
 
 
 def judge_cuts(chk, recs):
@@ -270,6 +424,10 @@ def do_replay(chk, path):
     if rep.get("kind") == "pipe":
         from . import c01_mech
         return c01_mech.replay_pipe(chk, rep)
+    if rep.get("kind") == "par_for_huge":
+        recs, rej = huge_execute(chk, rep["backend"], rep["threads"], [rep["scenario"]], "c01-replay-huge", 1500)
+        chk.cov["evaluations"] += 1
+        return huge_report(chk, rep["backend"], rep["threads"], recs, rej)
     backend, threads, s = rep["backend"], rep["threads"], rep["scenario"]
     exe = build.build("drv_par_for", backend=backend)
     n = 1 if (s["n"] <= 0 or s.get("prefill") or s.get("rounds")) else 50
